@@ -420,8 +420,8 @@ inline constexpr void Conversion<Unit::Volume, Unit::Volume::CubicMicroinch>::To
 }
 
 template <typename NumericType>
-inline const std::map<Unit::Volume, std::function<void(NumericType* const, const std::size_t size)>>
-    MapOfConversionsFromStandard<Unit::Volume, NumericType>{
+inline constexpr auto MapOfConversionsFromStandard<Unit::Volume, NumericType>{
+  MakeConversionTable<Unit::Volume, NumericType>({
       {Unit::Volume::CubicMetre,
        Conversions<Unit::Volume, Unit::Volume::CubicMetre>::FromStandard<NumericType>       },
       {Unit::Volume::CubicNauticalMile,
@@ -452,12 +452,12 @@ inline const std::map<Unit::Volume, std::function<void(NumericType* const, const
        Conversions<Unit::Volume, Unit::Volume::CubicMicrometre>::FromStandard<NumericType>  },
       {Unit::Volume::CubicMicroinch,
        Conversions<Unit::Volume, Unit::Volume::CubicMicroinch>::FromStandard<NumericType>   },
+})
 };
 
 template <typename NumericType>
-inline const std::
-    map<Unit::Volume, std::function<void(NumericType* values, const std::size_t size)>>
-        MapOfConversionsToStandard<Unit::Volume, NumericType>{
+inline constexpr auto MapOfConversionsToStandard<Unit::Volume, NumericType>{
+  MakeConversionTable<Unit::Volume, NumericType>({
           {Unit::Volume::CubicMetre,
            Conversions<Unit::Volume, Unit::Volume::CubicMetre>::ToStandard<NumericType>       },
           {Unit::Volume::CubicNauticalMile,
@@ -488,6 +488,7 @@ inline const std::
            Conversions<Unit::Volume, Unit::Volume::CubicMicrometre>::ToStandard<NumericType>  },
           {Unit::Volume::CubicMicroinch,
            Conversions<Unit::Volume, Unit::Volume::CubicMicroinch>::ToStandard<NumericType>   },
+})
 };
 
 }  // namespace Internal
